@@ -107,6 +107,23 @@ def run(ctx):
                 ctx.violation('impl-counterexample', 'the date-time %s was written as %r: zone %s has the offset %d s at that instant, the text says %d s'
                               % (dt.isoformat(), txt, zone, zoff, back[2]), dict(rep, dumped=txt))
                 return
+    # rows are dicts: the same grid with its row dicts built in another key order must be written as the same text
+    twins = 0
+    for g in gs:
+        if twins >= (4000 if thorough else 300):
+            break
+        g2 = codec.shuffled_rows_twin(rng, g)
+        if g2 is None:
+            continue
+        twins += 1
+        ctx.coverage['evaluations'] += 1
+        t1, t2 = h.dump(g), h.dump(g2)
+        if t1 != t2:
+            ctx.violation('impl-counterexample', 'the same grid with its row dicts built in another key order is written differently (cells under other columns)',
+                          {'grid_canonical': repr(codec.canon(g))[:3000], 'rows_as_given': repr([list(r.keys()) for r in g2])[:1000],
+                           'dumped': t2[:3000], 'dumped_in_column_order': t1[:3000]})
+            return
+    ctx.count('row-key-order twins', twins)
     ctx.sample({'dumped': sorted(seen, key=len)[len(seen) // 2][:1500] if seen else ''})
     ctx.coverage['distinct_nontrivial'] = len(seen)
 
